@@ -309,7 +309,7 @@ func (e *Env) Run(c Case) (map[string]interface{}, error) {
 	}
 	// ---- "out": a read path hands out a model, the caller mutates it
 	needClient := map[string]bool{"get": true, "list": true, "listValues": true, "whereList": true, "whereListValues": true,
-		"whereAllList": true, "whereCacheList": true}
+		"whereAllList": true, "whereCacheList": true, "getIndex": true, "whereListIndex": true}
 	var got model.Model
 	var reread func() model.Model
 	if needClient[c.Read] {
@@ -360,6 +360,22 @@ func (e *Env) Run(c Case) (map[string]interface{}, error) {
 			if res.Elem().Len() > 0 {
 				got = res.Elem().Index(0).Addr().Interface()
 			}
+		case "getIndex":
+			// no uuid: the row is found through the schema index on i
+			m := reflect.New(f.typ)
+			fieldByTag(m.Elem(), "i").SetInt(7)
+			if err := cl.Get(ctx, m.Interface()); err != nil {
+				return fail("Get by index: %v", err)
+			}
+			got = m.Interface()
+		case "whereListIndex":
+			m := reflect.New(f.typ)
+			fieldByTag(m.Elem(), "i").SetInt(7)
+			res := sliceOf()
+			if err := cl.Where(m.Interface()).List(ctx, res.Interface()); err != nil {
+				return fail("Where.List by index: %v", err)
+			}
+			got = first(res)
 		case "whereList":
 			m := reflect.New(f.typ)
 			fieldByTag(m.Elem(), "_uuid").SetString(rowUUID)
@@ -414,6 +430,16 @@ func (e *Env) Run(c Case) (map[string]interface{}, error) {
 		case "rowsByModels":
 			m := reflect.New(f.typ)
 			fieldByTag(m.Elem(), "_uuid").SetString(rowUUID)
+			var ms map[string]model.Model
+			ms, err = rc.RowsByModels([]model.Model{m.Interface()})
+			got = ms[rowUUID]
+		case "rowByModelIndex":
+			m := reflect.New(f.typ)
+			fieldByTag(m.Elem(), "i").SetInt(7)
+			_, got, err = rc.RowByModel(m.Interface())
+		case "rowsByModelsIndex":
+			m := reflect.New(f.typ)
+			fieldByTag(m.Elem(), "i").SetInt(7)
 			var ms map[string]model.Model
 			ms, err = rc.RowsByModels([]model.Model{m.Interface()})
 			got = ms[rowUUID]
